@@ -1,4 +1,5 @@
 import BHS.Props.C09
+import BHS.Props.AuthMw
 open BHS.Props.C09
 #print axioms C09_mediated
 #print axioms C09_valid_passes
@@ -13,3 +14,16 @@ open BHS.Props.C09
 #print axioms C09_same_api_routes
 #print axioms C09_admin_routes
 #print axioms C09_admin_routes_present
+#print axioms BHS.Props.AuthMw.AuthMw_reject_401
+#print axioms BHS.Props.AuthMw.AuthMw_parse
+#print axioms BHS.Props.AuthMw.AuthMw_getToken
+#print axioms BHS.Props.AuthMw.AuthMw_middleware
+#print axioms BHS.Props.AuthMw.AuthMw_requireAdmin
+#print axioms BHS.Props.AuthMw.AuthMw_requireAdmin_other
+#print axioms BHS.Props.AuthMw.AuthMw_abort
+#print axioms BHS.Props.AuthMw.AuthMw_authorize
+#print axioms BHS.Props.AuthMw.AuthMw_serve
+#print axioms BHS.Props.AuthMw.AuthMw_render
+#print axioms BHS.Props.AuthMw.C09_mediated_generated
+#print axioms BHS.Props.AuthMw.C09_valid_passes_generated
+#print axioms BHS.Props.AuthMw.C09_admin_generated
